@@ -115,6 +115,19 @@ def directed_cases():
     case("setci-never-saved", [["setci", 3], ["add", 1, 1, {"n": 2, "s": 1}], ["reopen", "destroy"], ["setci", 0], ["timer"],
                                ["reopen", "destroy"]])
     case("setci-big", [["setci", U64 + 17], ["timer"], ["reopen", "destroy"], ["setci", 1], ["timer"], ["timer"]])
+    # setTermAndVote stores the whole meta dict at once - a pending commit index included
+    case("settv-pending-ci", [["setci", 5], ["settv", 1, "n1:1"], ["reopen", "destroy"], ["setci", 6], ["settv", 2, None],
+                              ["reopen", "abandon"], ["timer"]])
+    case("settv-twice", [["settv", 1, "n1:1"], ["settv", 1, "n2:2"], ["settv", 3, None], ["reopen", "destroy"], ["settv", 3, None],
+                         ["reopen", "abandon"]])
+    case("settv-then-timer", [["setci", 4], ["settv", 2, "n2:2"], ["timer"], ["timer"], ["setci", 8], ["timer"], ["settv", 2, "n1:1"],
+                              ["timer"], ["reopen", "destroy"], ["timer"]])
+    case("settv-ci-persisted", small_adds(3) + [["setci", 3], ["settv", 1, "n1:1"], ["reopen", "abandon"], ["setci", 9],
+                                                ["reopen", "destroy"], ["settv", 2, "n1:1"], ["reopen", "destroy"]])
+    case("settv-no-ci", [["settv", 4, "n1:1"], ["reopen", "destroy"], ["setci", 2], ["timer"], ["reopen", "abandon"],
+                         ["delto", 0], ["settv", 5, None], ["reopen", "destroy"]], factory="createJournal")
+    case("settv-with-stale-tmp", small_adds(4) + [["crashat", ["delto", 1], 0.999, 0], ["setci", 2], ["settv", 1, "n2:2"],
+                                                  ["reopen", "abandon"], ["delto", 1], ["settv", 2, "n2:2"], ["reopen", "destroy"]])
     # reopen after every kind of op, both styles
     for style in ("destroy", "abandon"):
         case("reopen-everywhere-" + style,
@@ -249,6 +262,7 @@ def run(ctx):
               ("delfrom.hdr10", 3), ("reopen.destroy", 5), ("reopen.abandon", 5), ("op.delto", 5), ("op.clear", 3),
               ("delto.by_rename", 10), ("delto.removes_stale_tmp", 5), ("delto.tmp_grows", 2), ("delto.file_shrinks", 2),
               ("crashat.leaves_stale_tmp", 5), ("reopen.with_stale_tmp", 5), ("stale_tmp_compared", 10),
+              ("op.settv", 10), ("settv.with_pending_ci", 3), ("timer.idle_after_settv", 2),
               ("timer.saved", 3), ("timer.idle", 2), ("err.structError", 2), ("cmdsize.0", 2), ("cmdsize.>=256K", 1),
               ("add.idx_or_term=2^64-1", 1), ("img_compared", 50), ("ents_compared", 20)]
     missed = ["%s=%d<%d" % (k, cov.get(k, 0), f) for k, f in floors if cov.get(k, 0) < f]
